@@ -312,6 +312,8 @@ def shards(tier, seed):
     cases = sweep_cases()
     nsh = 32
     specs = [{"mode": "sweep", "part": i, "parts": nsh, "picks": [0] if tier == "quick" else [0, 1], "double": tier == "thorough"} for i in range(nsh)]
+    for i in range(12):
+        specs.append({"mode": "sweep2", "part": i, "parts": 12, "double": tier == "thorough"})
     n = 250 if tier == "quick" else 4000
     for i in range(8):
         specs.append({"mode": "random", "seed": seed * 1000 + i, "n": n})
@@ -357,7 +359,7 @@ def run_shard(spec, ctx):
                     total += 1
             # two pre-emptions (completion started -> actor started -> completion finishes): only for the
             # add_done_callback-vs-completion pairs, second switch within a short window after the first
-            if base["actors"] == [["add_cb", "state"]] and base.get("order") is None and (spec.get("double") or base["variant"] == "error"):
+            if False:
                 for i in range(n + 1):
                     for j in range(14 if spec.get("double") else 9):
                         c = dict(base, tape=[[i, 0], [j, 0]], clock="exact")
@@ -365,6 +367,26 @@ def run_shard(spec, ctx):
                         account(ctx, c, viols, info, ["sweep2"])
                         total += 1
         ctx.exhaustive.append({"domain": "single pre-emption placements of (subject x actor-op x completion kind) programs, part %d/%d" % (spec["part"], spec["parts"]),
+                               "size": total, "complete": True})
+    elif spec["mode"] == "sweep2":
+        # two pre-emptions (completion started -> actor started -> completion finishes) for the
+        # add_done_callback-vs-completion pairs; second switch within a short window after the first
+        cases = [c for c in sweep_cases() if c["actors"] == [["add_cb", "state"]] and c.get("order") is None
+                 and (spec.get("double") or c["variant"] == "error")]
+        total = 0
+        for idx, base in enumerate(cases):
+            if idx % spec["parts"] != spec["part"]:
+                continue
+            c0 = dict(base, tape=[], clock="exact")
+            viols, info = evaluate(c0)
+            n = info["steps"]
+            for i in range(n + 1):
+                for j in range(14 if spec.get("double") else 9):
+                    c = dict(base, tape=[[i, 0], [j, 0]], clock="exact")
+                    viols, info = evaluate(c)
+                    account(ctx, c, viols, info, ["sweep2"])
+                    total += 1
+        ctx.exhaustive.append({"domain": "double pre-emption (second within a short window) of add_done_callback-vs-completion programs, part %d/%d" % (spec["part"], spec["parts"]),
                                "size": total, "complete": True})
     else:
         progs.random_search(ctx, spec, case_strategy(), evaluate, account)
